@@ -5,6 +5,8 @@ import NdnProofs.Props.ComponentGen
 import NdnProofs.Props.TlvVarGen
 import NdnGen.Component
 import NdnGen.TlvVar
+import NdnProofs.Props.NameGen
+import NdnGen.NameGen
 #print axioms Ndn.C09.decode_encode_name
 #print axioms Ndn.C09.normalize_wire
 #print axioms Ndn.C09.isPrefix_iff
@@ -60,3 +62,7 @@ import NdnGen.TlvVar
 #print axioms Ndn.TlvVarGen.write_tl_num_eq
 #print axioms Ndn.TlvVarGen.pack_uint_bytes_eq
 #print axioms Ndn.TlvVarGen.parse_tl_num_eq
+#print axioms Ndn.NameGen.all_translated
+#print axioms Ndn.NameGen.encoded_length_eq
+#print axioms Ndn.NameGen.is_prefix_core_eq
+#print axioms Ndn.NameGen.encode_eq
